@@ -12,6 +12,44 @@ HIST_RULE = ("histories of 2..N anchored operations built by the harness's indep
              "distinct (type, label, accepted?) step sequences.")
 
 PROPS = {
+    "C01": {
+        "props": "theories/Props/C01.v",
+        "agree": ["theories/Agree/AgreeFuncs.v"],
+        "trusted_base": COMMON_TB + [
+            "modelled: the per-operation view (parse / signature / delta-hash / delta-validity verdicts, commitments, window, patches) is ground truth from the harness's independent builder, not derived by the model from bytes",
+            "composer = Composer.v mirror incl. json-patch 4.1.0 tree mirror (copy node sharing outside the model's domain, counted)",
+        ],
+        "assumptions": ["histories end at the first accepted deactivate (property text)"],
+        "rule": HIST_RULE,
+        "clauses": {"0": "resolved state after this step differs from the Sidetree state machine (any of the 15 fields)"},
+        "level_text": "apply (code-shaped mirror, every early return and every one of the 15 fields) proved equal to the declarative Sidetree step; the fold over an unbounded history proved equal to the spec fold by induction; corollaries for refusal, first-operation guard, bookkeeping, deactivate. Tie: correspondence on generated histories with every failure class at every position, all fields compared.",
+        "technique": "Coq proof (refinement + induction over histories) + differential correspondence",
+    },
+    "C02": {
+        "props": "theories/Props/C02.v",
+        "agree": [],
+        "trusted_base": COMMON_TB + [
+            "cryptographic strength of ECDSA/Ed25519/SHA-2 is outside the model: signature verdicts are labels of the harness builder (which signs and tampers with stdlib crypto directly)",
+        ],
+        "assumptions": ["tamperings are those of the property's quantifier, generated per family"],
+        "rule": HIST_RULE + " Auth focus: signature bit flips, payload re-encoding without re-signing, key substitution with/without re-signing and with/without the matching reveal value, reveal substitution, delta substitution, extra/altered headers, algorithm substitution, truncated segments.",
+        "clauses": {"0": "resolved state differs from the state machine", "1": "state changed although the operation is not authorised",
+                    "2": "create/recover installed content or update commitment from an unbound delta"},
+        "level_text": "Every accepting path of the applier mirror proved to imply all authorisation verdicts (batch parse incl. reveal=hash(key) and header rules, signed-data parse, JWS verification; delta hash and validity for update; signed suffix for deactivate); unbound delta proved to install only the empty document. Tie: correspondence with tampering families; oracle 'state changed and not authorised' evaluated on the implementation.",
+        "technique": "Coq proof (case analysis over all paths) + differential correspondence with tampering families",
+    },
+    "C12": {
+        "props": "theories/Props/C12.v",
+        "agree": [],
+        "trusted_base": COMMON_TB + [
+            "Go aliasing is not expressible in the value model: input immutability is decided by deep before/after snapshots and pointer identity in the harness (testing, labelled as such) - partial",
+        ],
+        "assumptions": [],
+        "rule": HIST_RULE + " Each Apply call is bracketed by deep JSON snapshots of (previous model, anchored operation) and a pointer-identity check of the previous document; a non-nil state returned together with an error also counts as a failure.",
+        "clauses": {"0": "resolved state differs from the state machine", "7": "an input was mutated, or a state was returned together with an error"},
+        "level_text": "Failure atomicity proved on the mirrors (a list failing at the k-th patch yields no document; refusal yields no state; degraded update keeps the previous document). Input immutability is partial: decided by runtime snapshots on generated histories and patch lists, since the value model cannot express Go aliasing.",
+        "technique": "Coq proof of atomicity + runtime snapshot comparison (partial)",
+    },
     "C09": {
         "props": "theories/Props/C09.v",
         "agree": ["theories/Agree/AgreeFuncs.v"],
@@ -20,6 +58,8 @@ PROPS = {
         ],
         "assumptions": ["anchoring time < 2^63 and from+delta representable (the wrap region is covered by C09_wrapped_time_refuses)"],
         "rule": HIST_RULE + " Window focus: early / late / t=from / t=until / t=from+delta / t=from+delta+1 / until-only, per operation type; every numeric protocol field distinct.",
+        "level_text": "Window arithmetic proved equivalent to the declarative window for all (from, until, t, delta) in the no-wrap domain, with the wrap region characterised; effects on update/recover/deactivate proved on the applier mirror; getAnchorUntil/verifyAnchoringTimeRange regenerated from source and proved equal to the mirror; correspondence on generated histories.",
+        "technique": "Coq proof (lia) + translator agreement lemmas + differential correspondence",
         "clauses": {"0": "resolved state differs from the state machine", "3": "time validator did not receive (from, until')",
                     "4": "out-of-window deactivate accepted", "5": "out-of-window update changed the document",
                     "6": "out-of-window recover left a non-empty document"},
